@@ -312,7 +312,7 @@ func parseContractFile(path string, extra ...string) (*ContractFile, error) {
 			cf.ByName["pool "+fields[1]] = cur
 			cf.Order = append(cf.Order, cur)
 			continue
-		case "func", "iface", "functype":
+		case "func", "iface", "functype", "impl":
 			rest := strings.TrimSpace(l[len(fields[0]):])
 			props := []string{}
 			if k := strings.Index(rest, "props:"); k >= 0 {
